@@ -414,7 +414,14 @@ impl Strategy {
 			return None;
 		}
 
-		// Pick the level with the highest score
+		// L0 first whenever it has reached its trigger: L0 file count is what stalls
+		// writers, and a lower level whose score never drops (a bottom level above its
+		// target size is rewritten in place and stays above it) must not starve it.
+		if scores.iter().any(|(level, _)| *level == 0) {
+			return Some(0);
+		}
+
+		// Otherwise pick the level with the highest score
 		let (level, _score) = scores[0];
 		Some(level)
 	}
